@@ -90,6 +90,7 @@ func (pass *InlineObjectsWithTypes) processRef(visitor *Visitor, schema *ast.Sch
 	}
 
 	typeDef := pass.objectsToInline.Get(def.Ref.String()).DeepCopy()
+	typeDef.Nullable = typeDef.Nullable || def.Nullable
 	typeDef.AddToPassesTrail(fmt.Sprintf("InlineObjectsWithTypes[original=%s]", def.Ref.String()))
 
 	// the inlined type might itself refer to objects that are being inlined
